@@ -609,6 +609,35 @@ def opCover (j : Json) : Except String Json := do
     | some c => famJson c
     | none => Json.null).toArray)]
 
+partial def ptreeOfJson (j : Json) : Except String O2P.Gate.PTree := do
+  match j with
+  | .null => pure .tau
+  | .str a => pure (.leaf a)
+  | .arr xs => match xs.toList with
+    | .str o :: rest => do
+      let op : O2P.Gate.POp := if o == "+" then .and else if o == "O" then .or else if o == "X" then .xor else .other
+      pure (.node op (← rest.mapM ptreeOfJson))
+    | _ => throw "bad tree"
+  | _ => throw "bad tree"
+
+partial def ptreeJson : O2P.Gate.PTree → Json
+  | .leaf a => Json.str a
+  | .tau => Json.null
+  | .node op cs =>
+    let o := match op with
+      | .and => "+"
+      | .or => "O"
+      | .xor => "X"
+      | .other => "?"
+    Json.arr (#[Json.str o] ++ (cs.map ptreeJson).toArray)
+
+/-- `infer_or_gate_from_node` on the root and `get_extended_or_gates_from_process_tree` on the whole tree -/
+def opInferOr (j : Json) : Except String Json := do
+  let sets ← (← getArr j "sets").toList.mapM strsOf
+  let t ← ptreeOfJson (← j.getObjVal? "tree")
+  pure <| Json.mkObj [("node", ptreeJson (O2P.Gate.inferOrNode sets t)),
+    ("all", ptreeJson (O2P.Gate.inferOrAll sets 50 t))]
+
 def opJudge (j : Json) : Except String Json := do
   let src ← gateOfJson (← (j.getObjVal? "src"))
   match j.getObjVal? "inferred" with
@@ -643,6 +672,7 @@ def handle (j : Json) : Except String Json := do
   | "gate.domain" => GateOps.opDomain j
   | "gate.judge" => GateOps.opJudge j
   | "gate.cover" => GateOps.opCover j
+  | "gate.inferor" => GateOps.opInferOr j
   | _ => throw s!"unknown op {op}"
 
 partial def loop (h : IO.FS.Stream) (out : IO.FS.Stream) : IO Unit := do
